@@ -7,12 +7,21 @@ PROFILES = [
 ]
 
 
+def scale_sessions(tier):
+    from . import scale, core
+    return scale.sessions(tier, core.seed())
+
+
 def check(tier):
-    return family.check_family(
-        "C01", tier, "c01",
-        [("P1", "MC_EggAbs_CC.cfg", 3, 4), ("P3", "MC_EggAbs.cfg", 3, 4)],
-        PROFILES, [(family.SEQ, None)], (40, 600),
+    return family.check_groups(
+        "C01", tier,
+        [dict(fam="c01", model_specs=[("P1", "MC_EggAbs_CC.cfg", 3, 4), ("P3", "MC_EggAbs.cfg", 3, 4)], profiles=PROFILES,
+              configs=[(family.SEQ, None)], nrand=(40, 600)),
+         dict(fam="c01scale", model_specs=[], profiles=[], nrand=(0, 0), extra=scale_sessions,
+              configs=[(family.SEQ, None), (dict(threads=4, seminaive=True, enc="plain"), sess.PAR0)])],
         ["ground terms bounded by the model universes / generator depth 2",
          "EqIsCC (oracle = independent congruence closure) is checked by TLC on model program P1 only; "
          "on other programs equality in EggAbs is the closure by construction of Normalize",
-         "trace validation covers the executed sessions only"])
+         "trace validation covers the executed sessions only",
+         "large databases (10^4 rows, >1000 containers; family c01scale) are checked for the raw invariants only (every stored id canonical, "
+         "keys unique) and for directed congruence instances, not renamed by least terms"])
